@@ -1,2 +1,69 @@
-(* C04 *)
-From Grex Require Import Base.Str.
+(* C04 — case-insensitive matching.
+
+   grex lower-cases the test cases (when that preserves the number of code points) and prints
+   (?i); the engine then accepts, for a literal a, every member of the simple case folding
+   class fold_class a (lit_ci).  fold_eq a b := In b (fold_class a).  skew_set is the list of
+   code points whose lower-casing leaves their folding class (known finding K3). *)
+From Grex Require Import Base.Str Base.Ranges Model.Config Model.Cluster Model.Dfa Model.Expr
+  Model.Print Model.Pipeline.
+From Grex Require Import Proofs.Lang Proofs.Spec Proofs.FoldTables Proofs.EngineDen
+  Proofs.Construction Proofs.PropsGlue.
+From GrexGen Require Import OracleTables.
+
+Theorem C04_lower_in_fold_class : forall c,
+  mem_cp c skew_set = false -> fold_eq c (lower1 c) /\ fold_eq (lower1 c) c.
+Proof. exact lower_in_fold_class. Qed.
+
+Theorem C04_fold_equivalence :
+  (forall a, fold_eq a a)
+  /\ (forall a b, fold_eq a b -> fold_eq b a)
+  /\ (forall a b c, fold_eq a b -> fold_eq b c -> fold_eq a c).
+Proof. exact (conj fold_eq_refl (conj fold_eq_sym fold_eq_trans)). Qed.
+
+(* the skew set is exactly the set of code points that the printed literal does not accept *)
+Theorem C04_skew_exact : forall c, mem_cp c skew_set = true <-> ~ fold_eq (lower1 c) c.
+Proof. exact skew_iff. Qed.
+
+(* the shorthand classes are unions of folding classes: (?i) does not change them *)
+Theorem C04_classes_fold_invariant : forall c m, In m (fold_class c) ->
+  mem engine_d m = mem engine_d c /\ mem engine_w m = mem engine_w c /\ mem engine_s m = mem engine_s c.
+Proof.
+  intros c m H. exact (conj (engine_d_fold_invariant c m H)
+                      (conj (engine_w_fold_invariant c m H) (engine_s_fold_invariant c m H))).
+Qed.
+
+(* test cases with the same lower-casing are one normalised entry *)
+Theorem C04_collapse : forall c db ws t1 t2,
+  f_ci c = true -> In t1 ws -> lower' db t1 = lower' db t2 ->
+  normalise c db (t2 :: ws) = normalise c db ws.
+Proof. exact ci_collapse. Qed.
+
+(* the printed pattern starts with (?i), in verbose mode with (?ix) *)
+Theorem C04_flag : forall isd c e,
+  f_ci c = true -> f_colour c = false ->
+  (f_verbose c = false -> starts_with [40; 63; 105; 41]%N (regexp_str isd c e) = true)
+  /\ (f_verbose c = true -> starts_with [40; 63; 105; 120; 41]%N (regexp_str isd c e) = true).
+Proof.
+  intros isd c e Hci Hc. split; intros Hv.
+  - exact (ci_flag_plain isd c e Hci Hv Hc).
+  - exact (ci_flag_verbose isd c e Hci Hv Hc).
+Qed.
+
+(* the expression denotes the specification under the (?i) denotation of literals *)
+Theorem C04_exact : forall c db sc ws e,
+  ws <> [] ->
+  oracle_ok db (normalise c db ws) ->
+  no_merge (grapheme_clusters c db (normalise c db ws)) = true ->
+  Pipeline.final_expr c (grapheme_clusters c db (normalise c db ws)) sc = Some e ->
+  (forall u, (u <> [] \/ K4 (normalise c db ws) = false) ->
+     (L_expr lit_ci cls_engine e u <-> Spec lit_ci cls_engine c db ws u))
+  /\ (L_expr lit_ci cls_engine e [] -> Spec lit_ci cls_engine c db ws []).
+Proof. exact (construction_lang lit_ci cls_engine). Qed.
+
+Print Assumptions C04_lower_in_fold_class.
+Print Assumptions C04_fold_equivalence.
+Print Assumptions C04_skew_exact.
+Print Assumptions C04_classes_fold_invariant.
+Print Assumptions C04_collapse.
+Print Assumptions C04_flag.
+Print Assumptions C04_exact.
